@@ -128,7 +128,7 @@ func NewLockingStreamer(rc io.ReadCloser, str *Store, timeout time.Duration) *Lo
 		closed:     rsync.NewAtomicBool(),
 		vid:        vhook.ID(),
 	}
-	vhook.Trace(str.dir, "ls.open", "ls", l.vid)
+	vhook.Trace("snapshot", "ls.open", "ls", l.vid)
 	l.lastRead.Store(time.Now().UnixNano())
 	if timeout > 0 {
 		l.timer = time.AfterFunc(timeout, l.checkIdle)
